@@ -68,13 +68,38 @@ func convexReadings(v []exact.P) (raw, col bool) {
 	return
 }
 
-func c18Check(c *mon.Ctx, s []exact.P) {
+func c18Check(c *mon.Ctx, s []exact.P) { c18CheckEnc(c, s, nil) }
+
+// c18CheckEnc judges the series built from s under an optional fine affine
+// encoding of the coordinates (the attributes are invariant under it).
+func c18CheckEnc(c *mon.Ctx, s []exact.P, enc *FEnc) {
 	gp := gpts(s)
+	if enc != nil {
+		gp = enc.Pts(s)
+		c.Count("fine_encodings")
+	}
 	c.SetCase(func() interface{} { return map[string]interface{}{"points": jps(s)} })
 	ok := c.Try(func() {
 		poly := geometry.NewPoly(gp, nil, &geometry.IndexOptions{Kind: geometry.None})
 		ring := poly.Exterior
 		c.Eval()
+		if enc == nil && len(s) >= 3 && len(s)%2 == 1 {
+			// a moved ring keeps its attributes and its segments (exact translation)
+			mv := poly.Move(3, -2).Exterior
+			ref := geometry.NewPoly(movePts(gp, 3, -2), nil, &geometry.IndexOptions{Kind: geometry.None}).Exterior
+			c.Count("moved_rings")
+			if mv.NumSegments() != ref.NumSegments() || mv.Convex() != ref.Convex() || mv.Clockwise() != ref.Clockwise() || mv.Empty() != ref.Empty() || mv.NumPoints() != ref.NumPoints() {
+				c.Violation("moved-ring", "a Move()d ring differs from the ring built at the moved coordinates", c18Case{Points: jps(s), Closed: true, What: "Move(3,-2)",
+					Got: fmt.Sprint(mv.NumSegments(), mv.Convex(), mv.Clockwise(), mv.Empty()), Want: fmt.Sprint(ref.NumSegments(), ref.Convex(), ref.Clockwise(), ref.Empty())})
+			} else {
+				for i := 0; i < ref.NumSegments(); i++ {
+					if mv.SegmentAt(i) != ref.SegmentAt(i) {
+						c.Violation("moved-ring", "a Move()d ring has different segments", c18Case{Points: jps(s), Closed: true, What: fmt.Sprintf("Move(3,-2).SegmentAt(%d)", i)})
+						break
+					}
+				}
+			}
+		}
 		v := cyc(s)
 		// counts and accessors
 		if ring.NumPoints() != len(s) {
@@ -285,6 +310,11 @@ func c18Run(c *mon.Ctx) {
 			}
 		}
 		c18Variants(c, s, true)
+		fe := fineEncs[i%len(fineEncs)]
+		c18CheckEnc(c, s, &fe)
+		if len(s) >= 3 && s[len(s)-1] != s[0] {
+			c18CheckEnc(c, closeRing(s), &fe)
+		}
 		c.Count("random_rings")
 		if i < 2 && c.WantSample() {
 			c.Sample(map[string]interface{}{"kind": "random-ring-all-rotations", "encoding": enc.Name, "points": jps(s)})
@@ -333,7 +363,15 @@ func init() {
 		Assumptions: []string{"coordinates in the exact domain", "where consecutive duplicate vertices make 'turn' ambiguous the flag may follow either the raw-triple or the duplicates-collapsed reading (counted as convex_ambiguous_duplicates, not asserted strictly)"},
 		Exhaustive:  func(string) bool { return true },
 		Run:         c18Run,
-		MustSee:     []string{"lattice_done", "convex_strict", "concave_seen", "random_rings"},
+		MustSee:     []string{"lattice_done", "convex_strict", "concave_seen", "random_rings", "fine_encodings", "moved_rings"},
 		Replay:      c18Replay,
 	})
+}
+
+func movePts(ps []geometry.Point, dx, dy float64) []geometry.Point {
+	out := make([]geometry.Point, len(ps))
+	for i, p := range ps {
+		out[i] = geometry.Point{X: p.X + dx, Y: p.Y + dy}
+	}
+	return out
 }
